@@ -43,9 +43,10 @@ Lemma sum_fi_steps keep src : groups_ok src -> forall n i outs st',
 Proof.
   intros [_ Hg]. induction n as [|n IH]; intros i outs st' Hb H.
   - cbn in H. inversion H. now rewrite Nat.add_0_r.
-  - cbn [steps sum_from_indexes step] in H. destruct (Nat.leb _ _); [|inversion H].
-    replace (N.to_nat (at_ (sn src 1) i) + N.to_nat (at_ (sn src 2) i))%nat
+  - rewrite steps_S in H. cbn [sum_from_indexes step] in H. cbv zeta in H.
+    replace (N.to_nat (at_ (sn src 2) i) + N.to_nat (at_ (sn src 1) i))%nat
       with (N.to_nat (at_ (sn src 1) (S i))) in H by (rewrite Hg by lia; lia).
+    destruct (Nat.leb _ _); [|inversion H].
     destruct (steps (sum_from_indexes keep) src (N.to_nat (at_ (sn src 1) (S i))) (S i) n) as [os r] eqn:E.
     inversion H; subst. replace (i + S n)%nat with (S i + n)%nat by lia. eapply IH; [|exact E]. lia.
 Qed.
